@@ -61,7 +61,11 @@ def c14 (fn : String) (r : Req) : Option (String × String) :=
     let s := match Spec.cut xs bins labels right ab with
       | none => "E:labels"
       | some l => showList showOutcome l
-    some (m, s)
+    -- `oc=`: the items are collected by a fallible collector into an output container: the first
+    -- per-element error is the result of the whole call
+    let collapse (t : String) : String :=
+      if (r.get "oc").isSome && (splitList t).contains "E:outside" then "E:outside" else t
+    some (collapse m, collapse s)
   | "vcut_pinned" =>
     let (mn, mx) := c14Ext t
     let bins := (c14Vals t r "bins").filterMap id
